@@ -5,9 +5,9 @@ import (
 	"fmt"
 	"io"
 	"os"
+	"path/filepath"
 
 	"github.com/go-git/go-billy/v5"
-	"github.com/go-git/go-billy/v5/util"
 )
 
 var ErrClockNotExist = errors.New("clock doesn't exist")
@@ -106,5 +106,31 @@ func (pc *PersistedClock) read() error {
 
 func (pc *PersistedClock) Write() error {
 	data := []byte(fmt.Sprintf("%d", pc.counter))
-	return util.WriteFile(pc.root, pc.filePath, data, 0644)
+
+	// Write in a temporary file and rename it over the clock: rewriting the clock in place
+	// means that a process dying at the wrong time leaves an empty or truncated file, that is
+	// a clock that can't be read anymore or that went back in time.
+	// The temporary file is created at the root of the filesystem, not next to the clock, as
+	// each file next to the clock is expected to be a clock.
+	tmp, err := pc.root.TempFile("", "clock-")
+	if err != nil {
+		return err
+	}
+	_, err = tmp.Write(data)
+	if err != nil {
+		_ = tmp.Close()
+		_ = pc.root.Remove(tmp.Name())
+		return err
+	}
+	err = tmp.Close()
+	if err != nil {
+		_ = pc.root.Remove(tmp.Name())
+		return err
+	}
+	err = pc.root.MkdirAll(filepath.Dir(pc.filePath), 0755)
+	if err != nil {
+		_ = pc.root.Remove(tmp.Name())
+		return err
+	}
+	return pc.root.Rename(tmp.Name(), pc.filePath)
 }
